@@ -113,19 +113,47 @@ class Path:
         self.pc.append(t)
         self.solver.add(t)
 
-    def _check(self, *extra: Any, timeout: int = FEAS_TIMEOUT_MS) -> Any:
+    def _check(self, *extra: Any, timeout: int = FEAS_TIMEOUT_MS, want: Any = None) -> Any:
+        """Satisfiability of pc (+extra) in a forked child with a hard time limit.
+        With want=<term> returns (status, int value of the term in the model or None)."""
+        from .hard import run_hard
+
         t0 = time.time()
-        self.solver.set("timeout", timeout)
-        self.solver.push()
-        try:
+
+        def job() -> Any:
+            self.solver.set("timeout", timeout)
             for e in extra:
                 self.solver.add(e)
             r = self.solver.check()
-        finally:
-            self.solver.pop()
+            val = None
+            if want is not None and r == z3.sat:
+                try:
+                    val = self.solver.model().eval(want, model_completion=True).as_long()
+                except Exception:  # pylint: disable=broad-except
+                    val = None
+            return (str(r), val)
+
+        st, out = run_hard(job, timeout / 1000.0 + 2.0)
         self.solver_calls += 1
         self.solver_time += time.time() - t0
+        if st != "ok":
+            res, val = "unknown", None
+        else:
+            res, val = out
+        r = {"sat": z3.sat, "unsat": z3.unsat}.get(res, z3.unknown)
+        if want is not None:
+            return r, val
         return r
+
+    def fixed_value(self, t: Any) -> Optional[int]:
+        """The integer value of t if the path condition determines it uniquely."""
+        s = z3.simplify(t)
+        if z3.is_int_value(s):
+            return s.as_long()
+        r, v = self._check(want=t)
+        if r != z3.sat or v is None:
+            return None
+        return v if self.entails(t == v) else None
 
     def feasible(self, t: Any = None) -> bool:
         """False only if pc (and t) is provably unsatisfiable."""
